@@ -17,7 +17,8 @@ import json, os, re, shutil, subprocess, sys, tempfile
 
 VERIF = os.path.dirname(os.path.dirname(os.path.abspath(__file__)))
 SCRATCH = os.environ.get("VERIF_SCRATCH", "/var/tmp/verif-scratch")
-TGT = os.path.join(SCRATCH, "replay-tgt")
+REPO = os.environ.get("VERIF_REPO", "/repo")
+TGT = os.path.join(SCRATCH, "replay-tgt" if REPO == "/repo" else "replay-tgt-alt")
 BIN = os.path.join(TGT, "release", "verif-replay")
 
 SYSCALLS = "openat,open,creat,close,fsync,fdatasync,rename,renameat,renameat2,unlink,unlinkat,mkdir,mkdirat,write,pwrite64,ftruncate"
@@ -27,10 +28,19 @@ def build():
     env = dict(os.environ)
     env["CARGO_NET_OFFLINE"] = "true"
     env.pop("RUSTFLAGS", None)
-    lock = os.path.join(VERIF, "replay", "Cargo.lock")
+    src = os.path.join(VERIF, "replay")
+    if REPO != "/repo":
+        # checks run against a patched copy of the repository (seeded changes): build against that copy
+        src = os.path.join(SCRATCH, "replay-src-alt")
+        if os.path.exists(src):
+            shutil.rmtree(src)
+        shutil.copytree(os.path.join(VERIF, "replay"), src)
+        ct = open(os.path.join(src, "Cargo.toml")).read().replace('path = "/repo"', 'path = "%s"' % REPO)
+        open(os.path.join(src, "Cargo.toml"), "w").write(ct)
+    lock = os.path.join(src, "Cargo.lock")
     if not os.path.exists(lock):
-        shutil.copy("/repo/Cargo.lock", lock)
-    p = subprocess.run(["cargo", "build", "--offline", "--release", "--target-dir", TGT], cwd=os.path.join(VERIF, "replay"),
+        shutil.copy(os.path.join(REPO, "Cargo.lock"), lock)
+    p = subprocess.run(["cargo", "build", "--offline", "--release", "--target-dir", TGT], cwd=src,
                        env=env, capture_output=True, text=True)
     if p.returncode != 0:
         raise RuntimeError("building verif-replay failed:\n" + p.stderr[-2000:])
